@@ -280,6 +280,24 @@ def _guard_function(prog, g, pidx, memo):
             continue
         if _parity_fact(None, fact.cond, fact.pol, pname):
             ok = True
+    if not ok:
+        # the check may itself be delegated: int _even_size(int n) { _require_even(n); return n; }
+        inner = []
+        for c in g.walk():
+            if c.is_call() and c.callee and c.callee.get("repo") and c.k not in ("CXXConstructExpr",):
+                h = prog.functions.get(c.callee.get("usr"))
+                args = c.call_args()
+                direct = [i for i, a in enumerate(args) if a.strip_all().k == "DeclRefExpr" and a.strip_all().decl.get("n") == pname]
+                if h is not None and direct and _guard_function(prog, h, direct[0], memo):
+                    inner.append(c)
+        if inner:
+            at = _validated_points(g, pname, inner)
+            tb = g.throw_blocks()
+            ok = all(at((bid, 10 ** 6)) for bid, b in g.blocks.items()
+                     if g.exit in [s_ for s_ in b.succs if s_ is not None] and bid not in tb and bid in g.reachable(g.entry))
+            if ok:
+                memo[k] = True
+                return True
     if ok:
         # the guard must also precede every subscript of the function
         ctx = GuardCtx(prog, g)
